@@ -7,7 +7,7 @@ namespace json = boost::json;
 
 static const char* SK_NAMES[] = {
     "Run", "Publish", "Subscribe", "Unsubscribe", "Receive", "CancelOp", "CancelClient", "Disconnect", "Destroy", "Recreate", "ReAuth",
-    "BrokerPublish", "BrokerDisconnect", "BrokerRestart",
+    "BrokerPublish", "BrokerDisconnect", "BrokerRestart", "BrokerBurst",
     "FByteCut", "FProto", "FWriteErr", "FConnect", "FResolve", "FHandshake", "FSessionPresent", "FStall", "FClockJump",
     "FPingSilent", "FHostileWindow", "FShutdownDelay", "FRaceTimer",
     "Heal", "Wait"};
